@@ -74,11 +74,16 @@ func genSegment(t *rapid.T, label string) string {
 
 func isLetter(c byte) bool { return (c >= 'a' && c <= 'z') || (c >= 'A' && c <= 'Z') }
 
-// genBase draws a base denomination. allowHopLike=false repairs, by construction, every draw that
-// falls into the recorded class hopLikeBase (second segment hop-like) by inserting a plain word
-// before that segment; the number of repairs is returned so that it can be counted as
-// `excluded_known`.
-func genBase(t *rapid.T, label string, allowHopLike bool) (base string, excluded int) {
+const (
+	keepHopLike       = 0 // no repair
+	repairHopLike     = 1 // repair every draw in the class hopLikeBase (C33's recorded class)
+	repairHopLikeSend = 2 // repair only draws in sendKnownClass (>= 3 segments; C42's recorded send-side class)
+)
+
+// genBase draws a base denomination. Depending on `repair`, draws that fall into a recorded class
+// (second segment hop-like) are repaired BY CONSTRUCTION by inserting a plain word before that
+// segment; the number of repairs is returned so that it can be counted as `excluded_known`.
+func genBase(t *rapid.T, label string, repair int) (base string, excluded int) {
 	n := rapid.SampledFrom([]int{1, 1, 2, 2, 2, 3, 3, 3, 4, 4, 5, 6}).Draw(t, label+"-nseg")
 	segs := make([]string, n)
 	for i := range segs {
@@ -88,7 +93,7 @@ func genBase(t *rapid.T, label string, allowHopLike bool) (base string, excluded
 	if segs[0] == "" || !isLetter(segs[0][0]) {
 		segs[0] = rapid.SampledFrom([]string{"x", "u", "ab", "gamm", "factory"}).Draw(t, label+"-lead") + segs[0]
 	}
-	if !allowHopLike && len(segs) >= 2 && hopLike(segs[1]) {
+	if len(segs) >= 2 && hopLike(segs[1]) && (repair == repairHopLike || (repair == repairHopLikeSend && len(segs) >= 3)) {
 		w := rapid.SampledFrom([]string{"pool", "w", "lp", "share"}).Draw(t, label+"-repair")
 		segs = append([]string{segs[0], w}, segs[1:]...)
 		excluded++
